@@ -19,6 +19,7 @@ POOL = ["Glc", "Man(a1-4)Glc", "Gal(b1-4)GlcNAc", "Neu5Ac(a2-3)Gal(b1-4)Glc", "M
         "GlcN", "GlcNAc6S", "Glc2Ac3Ac", "Man(a1-3)[Man(a1-6)]Man", "Fruf", "Kdo", "Glc6Ole", "Glc3Me", "Man(a1-4)Xyl-ol", "Glc-ulosonic",
         "GlcA", "Glc4e", "ManHep", "AraHex", "Rha-ol", "Fuc-ol", "Kdo-ol", "Mur-ol", "Api-ol", "Ery-ol", "Neu5Ac", "Sia", "Ins",
         "Glc1Me(a1-4)Glc", "Rib2OMe(b2-2)Xyl", "Fuc2Me(a2-4)Gal6A", "Glc6F", "Gal2Cl(b1-4)Glc", "Glc3N3Me", "Man4S(a1-4)Man4S",
+        "Glc(a1-4)" * 70 + "Glx", "Man(a1-3)[" * 1 + "Gal(b1-4)" * 65 + "Glc", "Gal(b1-4)" * 60 + "Glc", "Glc(a1-4)" * 70 + "Fooo(a1-4)Glc",
         "Unk", "Glc(a1-?)Man", "{Man(a1-4)}Glc", "Glc#Man", "xyz", "", "Man(a1-4)", "GlcLeu", "Glc7S", "Fuc6d", "Man((a1-4)Glc"]
 
 
@@ -137,7 +138,7 @@ def run(tier):
             report.fail({"site": "glycan-object", "kind": "result-depends-on-earlier-calls", "options": json.dumps(it_["kw"], sort_keys=True)},
                         {"input": it_["iupac"], "options": it_["kw"], "get_smiles_1st_2nd_3rd": o_["smiles"], "summary_1st_2nd": o_["summary_ok"],
                          "problem": "the same object gives different results depending on what was called on it before (get_smiles, summary, count, save_dot in between)"})
-    extra = {"object_reuse_cases": obj_cases, "rule": "random histories of 3-12 (quick) / 3-30 (thorough) calls of convert (return / stdout / file / missing file), convert_generator (exhausted, abandoned, closed or not), Glycan + get_smiles / summary / count / count_functional_groups (known tokens, SMILES, unparsable patterns) / count_protonation / save_dot / get_tree, over a pool of inputs covering open forms with and without resizing, acids, anhydro, D/L, amino, modifications and failures; each call is compared with the same call made first in a fresh interpreter; the shared tables are snapshot after every call",
+    extra = {"object_reuse_cases": obj_cases, "rule": "random histories of 3-12 (quick) / 3-30 (thorough) calls of convert (return / stdout / file / missing file), convert_generator (exhausted, abandoned, closed or not), Glycan + get_smiles / summary / count / count_functional_groups (known tokens, SMILES, unparsable patterns) / count_protonation / save_dot / get_tree, over a pool of inputs covering open forms with and without resizing, acids, anhydro, D/L, amino, modifications and failures; each call is compared with the same call made first in a fresh interpreter; the shared tables and interpreter-wide settings (recursion limit, working directory, environment, logger level / handlers, warnings filters, sys.path) are snapshot after every call",
              "calls_in_histories": n_calls, "distinct_calls_run_fresh": len(keys),
              "print_assumptions": res.assumptions.get(f"Props/{PROP}.v", "").strip().splitlines()[-4:],
              "partial": "history independence of results is decided by the differential runs; proved: convert() leaves the modelled process state unchanged on the returning and the exception path, effect-site inventory"}
